@@ -240,4 +240,5 @@ if __name__ == "__main__":
     ap = argparse.ArgumentParser()
     ap.add_argument("--tier", default="quick")
     a = ap.parse_args()
-    sys.exit(run_check("C18", "datasets reachable", [Reachable(), UnknownRejected(), Metadata()], a.tier, META))
+    from checks.c19 import DataHome          # the data-home clause runs on C19's file-system model
+    sys.exit(run_check("C18", "datasets reachable", [Reachable(), UnknownRejected(), Metadata(), DataHome()], a.tier, META))
